@@ -160,12 +160,14 @@ static ScriptCfg cfgFor(const std::string &id, int tier) {
 }
 
 rc::Gen<std::vector<Op>> genScriptOpsFor(const std::string &id, int tier) {
-    ScriptCfg c = cfgFor(id == "C03e" ? "C03" : id, tier);
-    if (id == "C03e") {      // edits of a loaded file: no fresh setup burst, just edit operations and frames
+    const bool editMode = id.size() == 4 && id[3] == 'e';
+    ScriptCfg c = cfgFor(editMode ? id.substr(0, 3) : id, tier);
+    if (editMode) {      // edits of a loaded file: no fresh setup burst, just edit operations and frames
         c.maxSetup = 3; c.maxFrames = 4; c.reload = true;
         auto mixed = g::weightedOneOf<std::vector<Op>>({{3, one(gEditOp(c))}, {2, gFrameAdd(c)}});
         auto lst = g::scale(0.1, g::container<std::vector<std::vector<Op>>>(g::scale(10.0, mixed)));
         auto edits = g::map(lst, [](std::vector<std::vector<Op>> v) { std::vector<Op> o; for (auto &x : v) o.insert(o.end(), x.begin(), x.end()); return o; });
+        if (!c.fillAtEnd) return edits;
         return concat({edits, one(op("gapfill", {seedv()}))});
     }
     return genScriptOps(c);
